@@ -22,24 +22,33 @@ S0(kind, f, kh, kw, sh, sw, ph, pw, dh, dw) ==
 Lay(s) == [kind |-> "layer", spec |-> s]
 Fb(specs) == [kind |-> "fb", specs |-> specs]
 
-\* activation-free menu: <<input shape, items>>
+\* activation-free menu: <<input shape, items, skip connections as <<target, source>> over the items (add accumulation)>>
 Menu == <<
   \* 1: dense, block of two dense layers (one with bias), dense head
-  << <<3>>, << Lay(D0(3, TRUE)), Fb(<<D0(3, TRUE), D0(3, FALSE)>>), Lay(D0(2, FALSE)) >> >>,
+  << <<3>>, << Lay(D0(3, TRUE)), Fb(<<D0(3, TRUE), D0(3, FALSE)>>), Lay(D0(2, FALSE)) >>, {} >>,
   \* 2: convolution flattened into a perceptron
-  << <<1, 4, 4>>, << Lay(S0("conv", 2, 2, 2, 1, 1, 0, 0, 1, 1)), Lay(D0(3, TRUE)), Lay(D0(2, FALSE)) >> >>,
+  << <<1, 4, 4>>, << Lay(S0("conv", 2, 2, 2, 1, 1, 0, 0, 1, 1)), Lay(D0(3, TRUE)), Lay(D0(2, FALSE)) >>, {} >>,
   \* 3: convolution, block of one padded convolution (shape-preserving), dense head (block output flattened)
-  << <<1, 3, 3>>, << Lay(S0("conv", 1, 2, 2, 1, 1, 1, 1, 1, 1)), Fb(<<S0("conv", 1, 3, 3, 1, 1, 1, 1, 1, 1)>>), Lay(D0(2, TRUE)) >> >>,
+  << <<1, 3, 3>>, << Lay(S0("conv", 1, 2, 2, 1, 1, 1, 1, 1, 1)), Fb(<<S0("conv", 1, 3, 3, 1, 1, 1, 1, 1, 1)>>), Lay(D0(2, TRUE)) >>, {} >>,
   \* 4: deconvolution (stride 2), strided / dilated convolution, dense head
-  << <<1, 2, 2>>, << Lay(S0("deconv", 1, 2, 2, 2, 2, 0, 0, 1, 1)), Lay(S0("conv", 2, 2, 2, 1, 2, 0, 1, 2, 1)), Lay(D0(2, FALSE)) >> >>,
+  << <<1, 2, 2>>, << Lay(S0("deconv", 1, 2, 2, 2, 2, 0, 0, 1, 1)), Lay(S0("conv", 2, 2, 2, 1, 2, 0, 1, 2, 1)), Lay(D0(2, FALSE)) >>, {} >>,
   \* 5: the network starts with a block
-  << <<2>>, << Fb(<<D0(2, TRUE)>>), Lay(D0(2, FALSE)) >> >>,
+  << <<2>>, << Fb(<<D0(2, TRUE)>>), Lay(D0(2, FALSE)) >>, {} >>,
   \* 6: a deeper perceptron with mixed bias
-  << <<4>>, << Lay(D0(4, TRUE)), Lay(D0(3, FALSE)), Lay(D0(3, TRUE)), Lay(D0(2, FALSE)) >> >>,
+  << <<4>>, << Lay(D0(4, TRUE)), Lay(D0(3, FALSE)), Lay(D0(3, TRUE)), Lay(D0(2, FALSE)) >>, {} >>,
   \* 7: block of a deconvolution followed by a convolution (1x2x2 -> 1x3x3 -> 1x2x2), dense head
-  << <<1, 2, 2>>, << Fb(<<S0("deconv", 1, 2, 2, 1, 1, 0, 0, 1, 1), S0("conv", 1, 2, 2, 1, 1, 0, 0, 1, 1)>>), Lay(D0(2, TRUE)) >> >>,
+  << <<1, 2, 2>>, << Fb(<<S0("deconv", 1, 2, 2, 1, 1, 0, 0, 1, 1), S0("conv", 1, 2, 2, 1, 1, 0, 0, 1, 1)>>), Lay(D0(2, TRUE)) >>, {} >>,
   \* 8: deconvolution with stride 2 and padding 2 on the width axis, dense head
-  << <<1, 2, 3>>, << Lay(S0("deconv", 1, 3, 3, 1, 2, 1, 2, 1, 1)), Lay(D0(2, FALSE)) >> >>
+  << <<1, 2, 3>>, << Lay(S0("deconv", 1, 3, 3, 1, 2, 1, 2, 1, 1)), Lay(D0(2, FALSE)) >>, {} >>,
+  \* 9: convolution, max-pool, perceptron
+  << <<1, 4, 4>>, << Lay(S0("conv", 2, 3, 3, 1, 1, 1, 1, 1, 1)), Lay(S0("pool", 1, 2, 2, 2, 2, 0, 0, 1, 1)), Lay(D0(3, TRUE)), Lay(D0(2, FALSE)) >>, {} >>,
+  \* 10: perceptron with two skip connections sharing their source, and a chain (1 -> 3, 1 -> 2, 3 -> 4 in item indices)
+  << <<4>>, << Lay(D0(4, TRUE)), Lay(D0(4, FALSE)), Lay(D0(4, TRUE)), Lay(D0(4, FALSE)), Lay(D0(2, TRUE)) >>, {<<3, 1>>, <<2, 1>>, <<4, 3>>} >>,
+  \* 11: a skip that regroups 1 x 4 x 4 into 4 x 2 x 2 (equal counts, different shapes)
+  << <<1, 4, 4>>, << Lay(S0("conv", 4, 2, 2, 2, 2, 0, 0, 1, 1)), Lay(S0("conv", 1, 3, 3, 1, 1, 1, 1, 1, 1)), Lay(D0(2, FALSE)) >>, {<<2, 1>>} >>,
+  \* 12: the U-Net pattern: the max-pool layer is the SOURCE of a skip
+  << <<1, 4, 4>>, << Lay(S0("conv", 1, 3, 3, 1, 1, 1, 1, 1, 1)), Lay(S0("pool", 1, 2, 2, 2, 2, 0, 0, 1, 1)), Lay(S0("deconv", 1, 2, 2, 2, 2, 0, 0, 1, 1)),
+                     Lay(S0("conv", 1, 3, 3, 1, 1, 1, 1, 1, 1)), Lay(D0(2, TRUE)) >>, {<<4, 2>>} >>
 >>
 
 ActMenus == << <<"tanh", "sigmoid", "leaky", "linear">>, <<"sigmoid", "leaky", "tanh", "tanh">>, <<"leaky", "tanh", "sigmoid", "relu">> >>
@@ -67,9 +76,11 @@ Compute ==
   /\ LET input == Menu[pick.net][1]
          items == MkItems(input, WithActs(Menu[pick.net][2], ActMenus[pick.acts], 0, pick.loops))
          un    == Unroll(items, 1)
+         connect == Menu[pick.net][3]
      IN rec' = [net |-> pick.net, acts |-> pick.acts, loops |-> pick.loops, input |-> input, items |-> items,
+                connect |-> connect,
                 fits |-> \A i \in 1..Len(items) : ItemFits(items[i]),
-                program |-> Program(un)]
+                program |-> ProgramS(un, connect)]
 Next == Compute
 Spec == Init /\ [][Next]_vars
 
@@ -77,18 +88,26 @@ Spec == Init /\ [][Next]_vars
 NamesA(u, n) == {AName(u, i) : i \in 1..n}
 NamesK(u, n) == {KName(u, j) : j \in 1..n}
 NamesD(u, n) == {DName(u, i) : i \in 1..n}
+NamesI(u, n) == {IName(u, i) : i \in 1..n}
+NamesE(u, n) == {EName(u, i) : i \in 1..n}
 WellFormed ==
   rec = <<>> \/
     LET P == rec.program IN
     /\ rec.fits
     /\ P[1].nx = Prod(rec.input)
+    /\ \A p \in rec.connect : p[2] < p[1] /\ P[p[1]].nx = P[p[2]].nx          \* skips join inputs of equal element count
     /\ \A u \in 1..Len(P) :
          LET L == P[u] IN
-         /\ Len(L.fwd) = L.no /\ Len(L.pre) = L.no /\ Len(L.gk) = L.nk /\ Len(L.gprev) = L.nx /\ L.no = Prod(L.out)
+         /\ Len(L.fwd) = L.no /\ Len(L.inp) = L.nx /\ Len(L.gk) = L.nk /\ Len(L.gin) = L.nx /\ Len(L.gprev) = L.nx /\ L.no = Prod(L.out)
          /\ u > 1 => L.nx = P[u - 1].no                      \* consecutive layers fit (flattening is the identity)
-         /\ \A n \in 1..L.no : A!Leaves(L.fwd[n]) \subseteq NamesA(u - 1, L.nx) \cup NamesK(u, L.nk)
-         /\ \A j \in 1..L.nk : A!Leaves(L.gk[j]) \subseteq NamesA(u - 1, L.nx) \cup NamesK(u, L.nk) \cup NamesD(u, L.no)
-         /\ \A i \in 1..L.nx : A!Leaves(L.gprev[i]) \subseteq NamesA(u - 1, L.nx) \cup NamesK(u, L.nk) \cup NamesD(u, L.no)
+         \* the input a layer processes mentions only the previous output and an EARLIER layer's processed input
+         /\ \A k \in 1..L.nx : A!Leaves(L.inp[k]) \subseteq NamesA(u - 1, L.nx) \cup UNION {NamesI(s, L.nx) : s \in 1..(u - 1)}
+         /\ \A n \in 1..L.no : A!Leaves(L.fwd[n]) \subseteq NamesI(u, L.nx) \cup NamesK(u, L.nk)
+         /\ \A j \in 1..L.nk : A!Leaves(L.gk[j]) \subseteq NamesI(u, L.nx) \cup NamesK(u, L.nk) \cup NamesD(u, L.no)
+         \* the gradient of a processed input: this layer's own part plus the parts of LATER layers that read it
+         /\ \A k \in 1..L.nx : A!Leaves(L.gin[k]) \subseteq NamesI(u, L.nx) \cup NamesK(u, L.nk) \cup NamesD(u, L.no)
+                                                              \cup UNION {NamesE(t, L.nx) : t \in (u + 1)..Len(P)}
+         /\ \A k \in 1..L.nx : \A t \in TargetsOf(rec.connect, u) : EName(t, k) \in A!Leaves(L.gin[k])   \* no target is forgotten
          \* every parameter of the layer is used by some output, and its gradient mentions the upstream gradient
          /\ \A j \in 1..L.nk : (\E n \in 1..L.no : KName(u, j) \in A!Leaves(L.fwd[n])) /\ A!Leaves(L.gk[j]) \cap NamesD(u, L.no) # {}
 \* copies of a block layer share the parameter group, the configuration and the activation
